@@ -2,7 +2,8 @@
    Only ExtrOcamlBasic is used: nat, positive, N, Z stay inductive datatypes. *)
 Require Extraction.
 Require Import ExtrOcamlBasic.
-From UP Require Import Base.Chars Base.Regex Base.Atoms Model.Uri Model.Escape Spec.PctSpec Spec.Rfc3986 Model.Ip4 Model.Parse.
+From UP Require Import Base.Chars Base.Regex Base.Atoms Model.Uri Model.Escape Spec.PctSpec Spec.Rfc3986 Spec.ErrPos Spec.Split Model.Ip4 Model.Parse Model.Recompose Model.Common Model.Compare Model.Resolve Model.Shorten Model.Normalize.
 Extraction Language OCaml.
 Extraction "model.ml" escape unescape unescape_inplace escaped_form crlf unescape_spec
-  parse parse_cstr parse_ip4 matchb first_dead URI_reference is_empty deriv nullable crun ptrans pfinish all_atoms atom_rep atom_of.
+  parse parse_cstr parse_ip4 matchb first_dead URI_reference is_empty deriv nullable crun ptrans pfinish all_atoms atom_rep atom_of errpos_ok split_spec to_text to_string chars_required
+  equals_uri add_base remove_base normalize mask_required make_owner remove_dot_segments fix_ambiguity.
